@@ -43,7 +43,7 @@ def nearest(query, wl, k):
     return best
 
 
-def write_whitelist(path, wl, fmt, gz):
+def write_whitelist(path, wl, fmt, gz, trailing_newline=True):
     lines = []
     for bc, idx in wl:
         if fmt == 'one':
@@ -54,7 +54,7 @@ def write_whitelist(path, wl, fmt, gz):
             lines.append('%s %s' % (idx, bc))
         else:
             lines.append('%s\t%s' % (bc, idx))
-    txt = '\n'.join(lines) + '\n'
+    txt = '\n'.join(lines) + ('\n' if trailing_newline else '')
     if gz:
         with gzip.open(path, 'wt') as f:
             f.write(txt)
@@ -107,7 +107,7 @@ def small_strategy(maxL):
                 else:
                     idx = 'w%d_%d' % (ai, perm[i])
                 wl.append([bc, idx])
-            aliases.append({'alias': 'wl%d' % ai, 'wl': wl, 'fmt': fmt, 'gz': draw(st.booleans())})
+            aliases.append({'alias': 'wl%d' % ai, 'wl': wl, 'fmt': fmt, 'gz': draw(st.booleans()), 'newline': draw(st.sampled_from([True, True, False]))})
         if len(aliases) == 2 and draw(st.integers(0, 2)) == 0:
             # second whitelist with the SAME barcode set but another barcode -> index mapping and another file format
             w0 = aliases[0]['wl']
@@ -115,7 +115,13 @@ def small_strategy(maxL):
             aliases[1]['wl'] = [[w0[i][0], 'other%d' % perm2[i]] for i in range(len(w0))]
             aliases[1]['fmt'] = draw(st.sampled_from(['index_first_tab', 'barcode_first']))
         lazy = draw(st.sampled_from([None, None, '*', 'list', 'getitem', 'manual']))
-        return {'L': L, 'k': k, 'aliases': aliases, 'lazy': lazy}
+        # the very first lookup on an alias (the one that triggers a lazy load) is drawn: all 5^L follow
+        first = ''.join(draw(st.lists(st.sampled_from(ALPHA), min_size=L, max_size=L)))
+        if draw(st.booleans()):
+            b0 = list(aliases[0]['wl'][draw(st.integers(0, len(aliases[0]['wl']) - 1))][0])
+            b0[draw(st.integers(0, L - 1))] = draw(st.sampled_from(ALPHA))
+            first = ''.join(b0)
+        return {'L': L, 'k': k, 'aliases': aliases, 'lazy': lazy, 'first': first}
     return case()
 
 
@@ -136,7 +142,7 @@ def eval_small(case):
     os.makedirs(d)
     try:
         for a in case['aliases']:
-            write_whitelist(os.path.join(d, a['alias'] + '.bc' + ('.gz' if a['gz'] else '')), a['wl'], a['fmt'], a['gz'])
+            write_whitelist(os.path.join(d, a['alias'] + '.bc' + ('.gz' if a['gz'] else '')), a['wl'], a['fmt'], a['gz'], a.get('newline', True))
         try:
             if case['lazy'] == 'manual':
                 # the demux.py -si / -hdi path: an empty parser, barcodes added by hand, explicit expand(k, alias)
@@ -162,8 +168,7 @@ def eval_small(case):
             for (b1, _), (b2, _) in itertools.combinations(wl, 2):
                 if hd(b1, b2) <= 2 * k:
                     close = True
-            for tup in itertools.product(ALPHA, repeat=L):
-                q = ''.join(tup)
+            for q in itertools.chain([case.get('first') or 'A' * L], (''.join(t) for t in itertools.product(ALPHA, repeat=L))):
                 exp = nearest(q, wl, k)
                 try:
                     got = parser.getIndexCorrectedBarcodeAndHammingDistance(q, a['alias'])
